@@ -83,7 +83,7 @@ def after_dynamic():
     ps = []
     i = 0
     for seq in (["d_char", "a_char_4", "u32"], ["d_char", "u8", "u32"], ["d_u16", "a_u16_3", "u64"], ["z_char", "a_char_4", "u16"],
-                ["d_char", "i24", "u16"], ["uleb", "a_char_4", "u32"]):
+                ["d_char", "i24", "u16"], ["uleb", "a_char_4", "u32"], ["d_char", "b8_sw32"], ["d_char", "b16_sw8_2", "u32"]):
         for al in (False, True):
             ps.append(Program(seq, "<>"[i % 2], al))
             i += 1
